@@ -8,6 +8,8 @@ CONSTANTS
   MaxTypes = 2
   StropMode = "suffix"
   GenNsChoices = {FALSE, TRUE}
+  Spellings = {"rel"}
+  CanonNs = FALSE
 INVARIANT Refines
 INVARIANT IndexClosed
 INVARIANT MadeIndexed
